@@ -26,6 +26,7 @@ type Mutant struct {
 	Rule      string `json:"rule"`      // rule expected to report it
 	Construct string `json:"construct"` // substring of the reported construct (optional)
 	Why       string `json:"why"`
+	Append    string `json:"append,omitempty"` // text appended to the file (package-level declarations the mutant needs)
 }
 
 type mutantOutcome struct {
@@ -67,7 +68,7 @@ func runMutant(m Mutant) mutantOutcome {
 	if n := strings.Count(string(src), m.Old); n != 1 {
 		return mutantOutcome{m.ID, "skipped", fmt.Sprintf("anchor occurs %d times (tree changed at the anchor)", n), ""}
 	}
-	mutated := strings.Replace(string(src), m.Old, m.New, 1)
+	mutated := strings.Replace(string(src), m.Old, m.New, 1) + m.Append
 	ov, _ := json.Marshal(map[string]string{path: mutated})
 	tmp, err := os.CreateTemp(filepath.Join(verifDir, ".cache"), "ovl-*.json")
 	if err != nil {
